@@ -1,5 +1,5 @@
 """C16 - layout is meaning-neutral."""
-from . import line_rules as lr, matcher_rules as mr, parser_rules as pr, builder_rules as br, error_rules as er
+from . import line_rules as lr, matcher_rules as mr, parser_rules as pr, builder_rules as br, error_rules as er, dialect_rules as dr
 
 META = {
     "level": "other",
@@ -30,3 +30,5 @@ def run(rep):
     er.rule_messages(rep, "C16.errors")
     br.rule_desc(rep, "C16.desc")
     br.rule_fields(rep, "C16.fields")
+    # the language header is recognised with or without a trailing carriage return
+    dr.rule_header(rep, "C16.header")
